@@ -10,6 +10,7 @@ import (
 	"path/filepath"
 	"sort"
 	"sync"
+	"sync/atomic"
 	"time"
 
 	"github.com/sheerbytes/sheerbytes/internal/transfer"
@@ -42,11 +43,12 @@ type PlanResult struct {
 	Skipped   int    `json:"planned_skipped"`
 	Verified  int    `json:"verified_chunk"`
 	Stats     bool   `json:"stats"`
+	EndCount  int    `json:"file_end_count"` // the frame count FileEnd announced (-1: no FileEnd seen)
 }
 
 func runPlan(c PlanCase) (res PlanResult) {
 	res.Name = c.Name
-	res.Skipped, res.Verified = -1, -1
+	res.Skipped, res.Verified, res.EndCount = -1, -1, -1
 	tmp, err := os.MkdirTemp("", "vplan")
 	if err != nil {
 		res.Note = "tmp:" + err.Error()
@@ -84,6 +86,14 @@ func runPlan(c PlanCase) (res PlanResult) {
 		mu.Lock()
 		res.Skipped, res.Verified, res.Stats = int(skipped), int(verified), true
 		mu.Unlock()
+	}
+	// the CLI installs a progress callback; it runs between a worker's "frame counted" and "chunk done" steps. Make every other
+	// call slow so that the workers' steps cross.
+	var pcalls int64
+	sopts.ProgressFn = func(rel string, sent, total int64) {
+		if atomic.AddInt64(&pcalls, 1)%2 == 1 {
+			time.Sleep(2 * time.Millisecond)
+		}
 	}
 	sch := make(chan error, 1)
 	go func() { sch <- transfer.SendManifestMultiStream(ctx, a, src, m, sopts) }()
@@ -168,6 +178,9 @@ func runPlan(c PlanCase) (res PlanResult) {
 					return
 				}
 			case transfer.FileEnd:
+				mu.Lock()
+				res.EndCount = int(x.CRC32)
+				mu.Unlock()
 				if err := transfer.VerifWriteFileDone(ctl, transfer.FileDone{StreamID: x.StreamID, OK: true}); err != nil {
 					scriptDone <- "write-done:" + err.Error()
 					return
